@@ -60,8 +60,14 @@ CLAIMED = {
             "token; resuming it in a second group and committing shows exactly what committing directly would show "
             "(with every crash point of that commit checked), aborting the resumed group shows the old content; a group "
             "with missing compression parents or missing inventories is refused (BzrCheckError) without any effect. "
-            "Pack / index contents, token validation and the repository-level state machine are outside.",
-            "_resume_pack is a stand-in; the sanity checks answer from a symbolic choice; effects atomic as in C04"),
+            "The real GCRepositoryPackCollection._check_new_inventories (+ _build_interesting_key_sets, _filter_text_keys) over "
+            "a write group whose new revisions and their parents are SYMBOLIC ids (a parent is another new revision, an old "
+            "revision or a ghost) with each new inventory / text present or missing: the group is reported as broken iff a "
+            "new revision lacks its inventory or the text it introduces, also when that revision is the parent of another "
+            "new revision. Pack / index contents, CHK maps themselves, token validation and the repository-level state machine are outside.",
+            "_resume_pack is a stand-in; in the life-cycle obligations the sanity checks answer from a symbolic choice; effects "
+            "atomic as in C04; for _check_new_inventories the indices and chk_map.iter_interesting_nodes are models over the "
+            "symbolic revision table"),
     "C07": ("autopack planning",
             "L1: pack_distribution/_max_pack_count for every total with <= 3/5 decimal digits; L2: plan_autopack_combinations "
             "for <= 4/5 packs with UNBOUNDED positive revision counts against an arbitrary valid distribution; L3: the real "
@@ -156,7 +162,8 @@ CLAIMED = {
             "before:revno:n, dotted revno:a.b.c and arbitrary short malformed text after 'revno:', with SYMBOLIC n, symbolic "
             "history length and symbolic text, against the definitions in the specifier help; before:<dotted revno> on a merged "
             "revision with 0..3 parents names its left-hand parent, through in_history and as_revision_id alike; the real "
-            "Branch dotted-number lookup over an arbitrary one-to-one numbering. Merge-sorted numbering (compiled) and the "
+            "Branch dotted-number lookup over an arbitrary one-to-one numbering, and again after the tip moved and the revisions "
+            "carry new (symbolic) numbers: no per-branch cache answers with a number from before. Merge-sorted numbering (compiled) and the "
             "revid:/tag:/ancestor:/mainline:/date: specifiers are outside.",
             "branch is a stub with a symbolic number of mainline revisions"),
     "C23": ("bound-branch commit kernel (first sentence of C23) and the master lookup it relies on",
